@@ -153,6 +153,12 @@ static void run_actions(Tst *t, int phase) {
             (void)mock_(r, "mocked_s", "scn.c", a->line, "p", (intptr_t)&dst);
             (*r->assert_true)(r, "scn.c", a->line, dst == src, "output parameter %d", dst);
         }
+        else if (!strcmp(k, "badparam")) {
+            /* a mocked call whose argument violates the read-only when() clause: exactly one failing check */
+            expect_(r, "mocked_w", "scn.c", a->line,
+                    when_("p", create_equal_to_value_constraint(1, "1")), (Constraint *)0);
+            (void)mock_(r, "mocked_w", "scn.c", a->line, "p", (intptr_t)2);
+        }
         else if (!strcmp(k, "die_in")) die_in(atoi(a->arg[0]));
         else if (!strcmp(k, "spin")) { for (;;) pause(); }
         else { fprintf(stderr, "scn_driver: unknown action %s\n", k); exit(97); }
